@@ -186,6 +186,9 @@ func genC39(t *rapid.T) C39Case {
 	if rapid.IntRange(0, 3).Draw(t, "short") == 0 {
 		n = rapid.IntRange(0, 6).Draw(t, "shortlen")
 	}
+	if rapid.IntRange(0, 15).Draw(t, "long") == 0 {
+		n = rapid.IntRange(290, 520).Draw(t, "longlen") // symbols wider than 4096 modules
+	}
 	b := make([]byte, 0, n)
 	for i := 0; i < n; i++ {
 		if c.FullASCII {
